@@ -9,7 +9,7 @@ Definition facts : gfacts :=
     mkGM "_fetch_forward" false false [mkBC "calendar.get_events" false] [mkSC "_calendar_timezone" false; mkSC "_calendar_timezone" false];
     mkGM "_fetch_reverse" false false [] [mkSC "_fetch_forward" false];
     mkGM "_add_interval" true true [mkBC "calendar.add_event" false] [mkSC "_calendar_timezone" false];
-    mkGM "_add_recurring" true true [mkBC "calendar.add_event" false] [mkSC "_calendar_timezone" false; mkSC "_calendar_timezone" false];
+    mkGM "_add_recurring" true true [mkBC "calendar.add_event" false] [mkSC "_calendar_timezone" false; mkSC "_calendar_timezone" false; mkSC "_calendar_timezone" false];
     mkGM "_remove_interval" true true [mkBC "calendar.delete_event" false] [mkSC "_remove_recurring_instance" false];
     mkGM "_remove_recurring_instance" false false [mkBC "calendar.get_event" true; mkBC "calendar.update_event" true] [];
     mkGM "_add_many" true false [] [mkSC "_add_many_batch" true];
